@@ -585,16 +585,11 @@ let rec exec (toks : string list) (side : string list) (impl_result : string) : 
     g.sk <- Some s';
     (match r with M.ROk v -> fstr_v v | M.RErr e -> "err " ^ err_name e | M.RPanic -> "panic")
   | "qs" :: k :: qvs ->
-    let (g, _) = get_sk k in
+    let (g, s) = get_sk k in
     absorb_vals g side;
-    let rec go acc = function
-      | [] -> String.concat "," (List.rev acc)
-      | qv :: tl ->
-        let s = match g.sk with Some s -> s | None -> raise Unsupported in
-        let (s', r) = M.xk_quantile (mtable_of g side) s (f64_of_hex qv) in
-        g.sk <- Some s';
-        (match r with M.ROk v -> go (fstr_v v :: acc) tl | M.RErr e -> "err " ^ err_name e | M.RPanic -> "panic") in
-    go [] qvs
+    let (s', r) = M.xk_quantiles (mtable_of g side) s (List.map f64_of_hex qvs) in      (* Sketch/SketchBatch.v: the batch loop (Props/SketchBatch.v) *)
+    g.sk <- Some s';
+    (match r with M.ROk vs -> String.concat "," (List.map fstr_v vs) | M.RErr e -> "err " ^ err_name e | M.RPanic -> "panic")
   | ["kobs"; k] -> let (g, s) = get_sk k in kobs_line g s side
   (* ----- C17 lockstep: every AddWithCount call of changeStoreMapping, from the float-level model (Sketch/ChangeMappingG.v)
      over the bit-exact mappings of Mapping/Glue.v; the calls of each side as a sorted multiset ----- *)
